@@ -297,3 +297,69 @@ func QualifierRules(p *core.Prog, r *core.Report) {
 		}
 	}
 }
+
+// SelectorRules: SELECTOR-SPLIT and STRAND-PRED for C19.
+func SelectorRules(p *core.Prog, r *core.Report) {
+	r.Rule("SELECTOR-SPLIT", "a selector clause is split into name and regexp at its FIRST `=` (IndexByte/Index/SplitN(...,2)/Cut), so the regexp may itself contain `=`", 1)
+	r.Rule("STRAND-PRED", "ForwardStrand and ReverseStrand accept exactly CheckStrand(loc) == StrandForward resp. StrandReverse (the strand has three values; mixed-strand locations are neither)", 2)
+	info := p.Info(core.PkgGts)
+	if fd := p.FuncDecl(core.PkgGts, "toQualifier"); fd == nil || fd.Body == nil {
+		r.Und("SELECTOR-SPLIT", "gts.toQualifier|anchor", "-", "anchor-unresolved")
+	} else {
+		r.Fn("gts.toQualifier")
+		verdict, pos := "", fd.Pos()
+		for _, c := range core.Calls(fd.Body) {
+			switch core.FuncID(core.Callee(info, c)) {
+			case "strings.IndexByte", "strings.Index", "strings.IndexRune", "strings.Cut":
+				if verdict == "" {
+					verdict, pos = "ok", c.Pos()
+				}
+			case "strings.SplitN":
+				if n, ok := core.ConstInt(info, c.Args[2]); ok && n == 2 {
+					if verdict == "" {
+						verdict, pos = "ok", c.Pos()
+					}
+				} else {
+					verdict, pos = "bad", c.Pos()
+				}
+			case "strings.Split", "strings.LastIndex", "strings.LastIndexByte", "strings.Fields", "strings.SplitAfter":
+				verdict, pos = "bad", c.Pos()
+			}
+		}
+		switch verdict {
+		case "ok":
+			r.Ok("SELECTOR-SPLIT", "gts.toQualifier", p.Pos(pos), "split at the first `=`")
+		case "bad":
+			r.Bad("SELECTOR-SPLIT", "gts.toQualifier", p.Pos(pos), "the clause is not split at its first `=`: a regexp that contains `=` is cut short (or the name swallows part of it)")
+		default:
+			r.Und("SELECTOR-SPLIT", "gts.toQualifier", p.Pos(pos), "no recognised split of the clause")
+		}
+	}
+	for _, w := range []struct{ fn, want string }{{"ForwardStrand", "StrandForward"}, {"ReverseStrand", "StrandReverse"}} {
+		fd := p.FuncDecl(core.PkgGts, w.fn)
+		if fd == nil || fd.Body == nil {
+			r.Und("STRAND-PRED", "gts."+w.fn+"|anchor", "-", "anchor-unresolved")
+			continue
+		}
+		r.Fn("gts." + w.fn)
+		good := false
+		if len(fd.Body.List) == 1 {
+			if rs, ok := fd.Body.List[0].(*ast.ReturnStmt); ok && len(rs.Results) == 1 {
+				if be, ok := ast.Unparen(rs.Results[0]).(*ast.BinaryExpr); ok && be.Op == token.EQL {
+					for _, pr := range [][2]ast.Expr{{be.X, be.Y}, {be.Y, be.X}} {
+						c, isCall := ast.Unparen(pr[0]).(*ast.CallExpr)
+						k, isConst := core.ObjOf(info, pr[1]).(*types.Const)
+						if isCall && core.IsCallTo(info, c, core.PkgGts+".CheckStrand") && isConst && k.Name() == w.want {
+							good = true
+						}
+					}
+				}
+			}
+		}
+		if good {
+			r.Ok("STRAND-PRED", "gts."+w.fn, p.Pos(fd.Pos()), "CheckStrand(loc) == "+w.want)
+		} else {
+			r.Bad("STRAND-PRED", "gts."+w.fn, p.Pos(fd.Pos()), "the strand filter is not `CheckStrand(f.Loc) == "+w.want+"`: mixed-strand (join of plain and complemented parts) locations are classified with one of the pure strands")
+		}
+	}
+}
